@@ -355,6 +355,9 @@ func (st *State) load(addr string, t types.Type, root string) Val {
 		if k == KAddr && root == "" {
 			st.envAddr(term)
 		}
+		if k == KAddr {
+			st.typeFact(term, t)
+		}
 		return v
 	case KSlice:
 		b := st.define("ld", "Addr", "(select "+st.heap("Ha")+" (fld "+addr+" 0))")
@@ -530,6 +533,7 @@ func (st *State) freshVal(t types.Type, hint string) Val {
 	case KAddr:
 		n := st.declare(hint, "Addr")
 		st.envAddr(n)
+		st.typeFact(n, t)
 		return Val{K: k, T: n, Ty: t}
 	case KSlice:
 		b := st.declare(hint+"_b", "Addr")
@@ -605,4 +609,24 @@ func valIte(c string, a, b Val) Val {
 		return a
 	}
 	return Val{K: a.K, T: sIte(c, a.T, b.T), Ty: a.Ty}
+}
+
+// typeFact: a non-nil pointer of static type *T (T a named struct) points to an object of type T. Two pointers to
+// different struct types are therefore different addresses (Go memory is typed; the heap model is not).
+func (st *State) typeFact(term string, t types.Type) {
+	if term == "null" || t == nil || st.quant > 0 {
+		return
+	}
+	pt, ok := t.Underlying().(*types.Pointer)
+	if !ok {
+		return
+	}
+	n, ok := pt.Elem().(*types.Named)
+	if !ok {
+		return
+	}
+	if _, ok := n.Underlying().(*types.Struct); !ok {
+		return
+	}
+	st.assume("(or (= " + term + " null) (= (dyntype " + term + ") " + intLit(int64(st.e.typeTag(n))) + "))")
 }
